@@ -558,6 +558,9 @@ pub fn check(ctx: &mut Ctx, id: &'static str) {
                 }
                 None
             });
+            for c in ["lines-between=0", "lines-between=1", "lines-between=2", "lines-between=3", "strict-line-for-line", "single-line-unwrap", "child-element-in-unwrapped-body"] {
+                ctx.require_class(c);
+            }
             ctx.random("ast-documents", 400, 400_000, 4_000_000, |t| gen(t, which), |c, obs| oracle_c11(c, obs, kf1, false));
         }
         Which::C12 => {
@@ -572,7 +575,10 @@ pub fn check(ctx: &mut Ctx, id: &'static str) {
                 }
                 None
             });
-            ctx.random("ast-documents", 400, 400_000, 4_000_000, |t| gen(t, which), |c, obs| oracle_c12(c, obs, kf1, false));
+            for c in ["unwrap-nesting-depth>=2", "block-on-line-1", "tab-unit", "block-after-empty-first-line"] {
+                ctx.require_class(c);
+            }
+            ctx.random("ast-documents", 400, 800_000, 6_000_000, |t| gen(t, which), |c, obs| oracle_c12(c, obs, kf1, false));
         }
         Which::C13 => {
             ctx.rule = "cases = block-style AST documents, default strategy only: blank and whitespace-only lines in any number around blocks, nesting in pending / skip / unregistered parents, multi-byte lines, with / without final newline, 3 indentation units. Oracle: (1) non-blank output lines == surviving non-blank input lines byte for byte in order; (2) for every removed block that is a single element, has surviving non-blank lines before and after and b / a blank lines directly around it: exactly a+b-[a>0 and b>0] blank lines remain between its neighbours. Exhaustive grid (b,a) in 0..4 x 4x4 blank styles x indent x content x pending parent x position x final newline. Non-trivial = a removed block with a+b > 0 or nested in a pending parent.".into();
@@ -586,6 +592,9 @@ pub fn check(ctx: &mut Ctx, id: &'static str) {
                 }
                 None
             });
+            for c in ["formula b=1 a=1", "formula b=0 a=0", "formula b=3 a=3", "removed-block-in-pending-parent"] {
+                ctx.require_class(c);
+            }
             ctx.random("ast-documents", 400, 400_000, 4_000_000, |t| gen(t, which), |c, obs| oracle_c13(c, obs, kf1, false));
         }
     }
